@@ -974,7 +974,7 @@ def _crate_dir():
     vlib.write_if_changed(os.path.join(dst, "Cargo.toml"), text)
     if not os.path.exists(os.path.join(dst, "Cargo.lock")):
         lock_src = os.path.join(vlib.REPO, "Cargo.lock")
-    shutil.copy(lock_src if os.path.exists(lock_src) else "/repo/Cargo.lock", os.path.join(dst, "Cargo.lock"))
+        shutil.copy(lock_src if os.path.exists(lock_src) else "/repo/Cargo.lock", os.path.join(dst, "Cargo.lock"))
     return dst, h
 
 
@@ -1324,9 +1324,9 @@ KNOWN_CLASS = {"F4": (M_DRAINLEFT, "F4_witness.cases"), "F5": (M_PREPHELD, "F5_w
 
 # theorems pinned per property (coq/Props/<prop>.v)
 PINS = {
-    "C01": ["C01_exactly_once_fifo", "F4_refuted"], "C02": ["C02_fifo_lifecycle", "C02_order_gating_partial"], "C03": ["C03_lifecycle", "C03_lifecycle_checked", "C03_decomposition", "C03_once_partial"],
+    "C01": ["C01_exactly_once_fifo", "F4_refuted"], "C02": ["C02_fifo_lifecycle", "C02_order_gating_partial"], "C03": ["C03_terminates_once", "C03_terminates_once_checked", "C03_decomposition", "C03_lifecycle", "C03_cause", "C03_once_partial"],
     "C04": ["C04_owner_count_partial"], "C05": ["C05_as_checked", "C05_ret_exactly_once", "C05_calls_not_lost", "C05_ret_exactly_once_checked", "C05_ret_once_partial"], "C06": ["C06_quiescence_lazy_idle", "C06_plain_any_deferrer"],
-    "C15": ["C15_time"], "C16": ["C16_released_once_partial", "C16_decomposition", "C16_heap_partial"], "C20": ["C20_open_close_filter", "C20_filter_table"],
+    "C15": ["C15_time"], "C16": ["C16_released_once_partial", "C16_decomposition", "C16_no_uaf", "C16_flags_no_leak_part", "C16_flags_of_no_leak", "C16_heap_partial"], "C20": ["C20_open_close_filter", "C20_filter_table"],
 }
 PROOF_FILES = ["R/Syntax.v", "R/Rt.v", "R/Mon.v"]
 
@@ -1342,14 +1342,14 @@ CLAIM = {
                 missing=""),
     "C02": dict(partial=False, proved="C02_fifo_lifecycle: forall p fuel t, exec DGlobal fuel p = Done t -> C02_ok t = true (per-actor FIFO of calls across Prep->Ready, lifecycle gating, discards justified by termination / teardown; global / thread-local deferrer); C02_order_gating_partial: one-item facts",
                 missing=""),
-    "C03": dict(partial=True, proved="C03_lifecycle: forall d p fuel t, exec d fuel p = Done t -> no_container_leak t -> okL t = true (lifecycle conjunct of C03_ok: Prep->Ready->Zombie / Prep->Zombie only, nothing starts after the notification, is_zombie true from then on, notifier invoked exactly once, value dropped exactly once after Ready and not after a cause notification, nothing owed at the end; hypothesis decidable on the trace: no leaked closure / value / notifier); C03_decomposition: okL t = true -> okK t = true -> C03_ok t = true; C03_once_partial: one-step facts (terminate makes a Zombie and takes the notifier once, Close+Notify pushed together, stop/fail first-writer-wins)",
-                missing="the cause conjunct okK for all programs (the notified cause is the first stop/fail of the body / a requested kill / Dropped; the value is not dropped while a method of the actor runs): validated on traces only"),
+    "C03": dict(partial=False, proved="C03_terminates_once: forall d p fuel t, exec d fuel p = Done t -> no_container_leak t -> C03_ok t = true (hypothesis decidable on the trace: no leaked closure / actor value / notifier; it is false only in the known-finding classes F5 / F7 and for an actor storing a reference to itself, where C03_ok is indeed false: C03_F5_refuted, C03_F7_refuted, C03_selfcycle_refuted); C03_terminates_once_checked (boolean hypothesis ncl_b); C03_decomposition (C03_ok from the lifecycle monitor okL and the cause monitor okK); C03_lifecycle; C03_cause (okK for every run, no hypothesis); C03_once_partial (one-step facts)",
+                missing=""),
     "C04": dict(partial=True, proved="C04_owner_count_partial: translated strong count is an exact counter below saturation; last owner drop queues terminate(Dropped) at the end of the main queue",
                 missing="forall-programs statement of C04_ok (count = number of live owners needs linearity of handles over the whole configuration): validated on traces only"),
     "C05": dict(partial=False, proved="C05_as_checked: forall p fuel t, exec DGlobal fuel p = Done t -> NoDup (ret_ids t) -> no_container_leak t -> C05_ok t && C05_calls_ok t = true; C05_ret_exactly_once: the first conjunct for either deferrer (every Ret created once and invoked exactly once, with the value sent or None where it is dropped); C05_calls_not_lost: the second conjunct without hypotheses (DGlobal). The two hypotheses are decidable on the trace (distinct Ret ids; no leaked closure / actor value / notifier) and cannot be dropped: F5, F7, a self-reference cycle and the inline-deferrer leftover are refuted at model level (C05_*_model)",
                 missing=""),
-    "C16": dict(partial=True, proved="C16_released_once_partial: forall d p fuel t, exec d fuel p = Done t -> C16_once_ok K16_lin t = true (closure instances, actor values, user Rets, termination notifiers are consumed only if created before and not consumed yet); C16_decomposition: C16_ok = C16_flags_ok && C16_once_ok K && C16_once_ok (not K); C16_heap_partial: translated MinRc table frees exactly on 1->0, clone/drop round trip, model frees the cell exactly then",
-                missing="at-most-once for tokens, Fwd objects and orphaned value tokens (kinds outside the census of Lin.v); the flag part of C16_ok (no leak outside F4/F5/F7, no access to a freed cell); machine-level memory safety is sampled under AddressSanitizer (thorough tier)"),
+    "C16": dict(partial=True, proved="C16_released_once_partial: forall d p fuel t, exec d fuel p = Done t -> C16_once_ok K16_lin t = true (closure instances, actor values, user Rets, termination notifiers are consumed only if created before and not consumed yet); C16_decomposition: C16_ok = C16_flags_ok && C16_once_ok K && C16_once_ok (not K); C16_no_uaf: no access to an actor cell that is gone (not in the table / already freed) in any run; C16_flags_no_leak_part: the flag check without its leak conjunct holds in every run; C16_flags_of_no_leak: C16_flags_ok t = true when t reports no leak; C16_heap_partial: translated MinRc table frees exactly on 1->0, clone/drop round trip, model frees the cell exactly then",
+                missing="at-most-once for tokens, Fwd objects and orphaned value tokens (kinds outside the census of Lin.v); the leak conjunct of the flag part (no leak outside F4/F5/F7 and the documented defer-after-drop case); machine-level memory safety is sampled under AddressSanitizer (thorough tier)"),
     "C20": dict(partial=False, proved="C20_open_close_filter: forall d p fuel t, exec d fuel p = Done t -> Z.of_nat (length t) < 2^64-1 -> C20_ok (observable t) = true (observable = the trace without the model-only '~' events; bound: LogIDs are u64 counters); C20_filter_table (9x9 table of the translated From<LogLevel>/allows)",
                 missing=""),
 }
